@@ -162,6 +162,12 @@ func (h *H) malformed(thorough bool) {
 		ns := append(le32(1), make([]byte, 12+4+8+8+4+1+8+8)...) // NodeState up to the Metadata count
 		add("map-count", seed{4, false, kJoinRequest, nil}, append(ns, le32(n)...))
 	}
+	// the second map of a NodeState and the version vector of a view, at and above their caps
+	for _, n := range []uint32{65535, 65536, 65537, 0x80000000} {
+		ns := append(le32(1), make([]byte, 12+4+8+8+4+1+8+8+4)...) // NodeState with an empty Metadata, up to the Labels count
+		add("map-count", seed{4, false, kJoinRequest, nil}, append(ns, le32(n)...))
+		add("vv-count", seed{4, false, kGossip, nil}, viewHeader(0, append(make([]byte, 12), le32(n)...)))
+	}
 	// nesting: every level copies its body
 	depths := []int{3, 60, 1500}
 	if thorough {
@@ -171,6 +177,6 @@ func (h *H) malformed(thorough bool) {
 		add("nest", seed{4, false, kScheduler, nil}, nestedScheduler(d))
 	}
 	h.o.Info["malformed_inputs"] = len(inputs)
-	h.o.Info["child_limits"] = map[string]any{"RLIMIT_AS": childAddressSpace, "alloc_bound": "64*len + 16 MiB", "no_output_timeout_s": 30}
+	h.o.Info["child_limits"] = map[string]any{"RLIMIT_AS": childAddressSpace, "watchdog_abort_bytes": childAllocAbort, "alloc_bound": "64*len + 16 MiB", "no_output_timeout_s": 30}
 	h.decodeInChild(inputs)
 }
